@@ -86,6 +86,13 @@ def call(ex, e, st, fr):
             return [(r, st)]
     if isinstance(f, ast.Name) and f.id == 'print':
         return [(vnone(), st)]
+    if isinstance(f, ast.Name) and f.id in ('any', 'all') and len(e.args) == 1 and not e.keywords and \
+            isinstance(e.args[0], (ast.GeneratorExp, ast.ListComp)):
+        # any(c(x) for x in xs) / all(...) in the code: the condition is read-only (evaluated like a specification
+        # quantifier over the current state); anything else in it is outside the subset
+        g = e.args[0]
+        gen = ast.GeneratorExp(elt=g.elt, generators=g.generators)
+        return [(vbool(ex.specs.quantify(ex, gen, st, fr, f.id == 'all')), st)]
     if isinstance(f, ast.Name) and f.id == 'super':
         raise Unsupported('bare super()')
     # ---- receiver first, then arguments
